@@ -1227,6 +1227,21 @@ def rule_kind_cmp(ctx, rule):
             # reals they round to are part of the grid)
             ints_ = list(range(-2, 3)) + ([16777216, 16777217, 2147483647, -2147483648] if mixed and "Rational" not in (ka, kb) else [])
             reals_ = REALS + ([16777216.0, 16777218.0, 2147483648.0, -2147483648.0] if mixed and "Rational" not in (ka, kb) else [])
+            if mixed and "Rational" in (ka, kb):
+                # a ratio facing a real: improper ratios whose quotient is not a binary fraction (5/3, 7/3 ...) and the reals next to
+                # their binary32 value — the conversion has to be the correctly rounded quotient, not something rounded twice
+                ints_ = list(range(-2, 3)) + [5, -5, 7, 10]
+                import struct as _st
+
+                def _next(v, up=True):
+                    b_ = _st.unpack("<i", _st.pack("<f", v))[0]
+                    b_ += (1 if (v >= 0) == up else -1)
+                    return _st.unpack("<f", _st.pack("<i", b_))[0]
+                extra_ = []
+                for q_ in (5 / 3, -5 / 3, 7 / 3, 10 / 3):
+                    x_ = _f32(q_)
+                    extra_ += [x_, _next(x_, True), _next(x_, False)]
+                reals_ = REALS + extra_
             doms = [range(1, 4) if n_ in dens else (reals_ if n_ in rs else ints_) for n_ in names]
             bad, points, uncovered = None, 0, 0
             for vals in itertools.product(*doms):
